@@ -1301,12 +1301,20 @@ def payload(check, prog):
             return t[2][1][1]
         return None
     unpacked = set()
+
+    def unnamed(t):
+        # (a name given to the array beforehand does not change which array it is)
+        while t[0] == 'upd' and t[2] == 'attr' and t[3] == 'name':
+            t = t[1]
+        return t
     for e in it2.effects:
         if e['kind'] == 'setattr' and e['attr'] == 'attrs':
             v = strip_copy(e['value'])
+            base_ = unnamed(e['base'])
             if v[0] == 'call' and v[1] == UNPACK and len(v[2]) == 1 and \
-                    v[2][0] == ('attr', e['base'], 'attrs') and var_of(e['base']):
-                unpacked.add(var_of(e['base']))
+                    v[2][0][0] == 'attr' and v[2][0][2] == 'attrs' and \
+                    unnamed(v[2][0][1]) == base_ and var_of(base_):
+                unpacked.add(var_of(base_))
     restored, crossed = set(), []
     for e in it2.effects:
         if e['kind'] == 'setitem' and e['key'][0] == 'const' and \
@@ -1317,6 +1325,25 @@ def payload(check, prog):
             if src != e['key'][1]:
                 crossed.append((e['key'][1], src))
             restored.add(e['key'][1])
+    # the fitted image keeps its name: in the file it is the variable 'data', so
+    # the writer records the image's own name and the reader gives it back
+    itw = Interp(prog, max_depth=1, opaque=[UNPACK, PACK])
+    itw.analyze(R + '._serialize_as_dataset')
+    own_name = intern(('attr', ('attr', sym('self'), 'data'), 'name'))
+    wrote = [e for e in itw.effects if e['kind'] == 'setitem' and
+             e['key'] == ('const', 'name') and e['value'] == own_name and not e['cond']]
+    gave = [e for e in it2.effects if e['kind'] == 'setattr' and e['attr'] == 'name' and
+            any(x == ('const', 'name') for x in subterms(e['value'])) and
+            var_of(unnamed(e['base'])) == 'data']
+    check.require(bool(wrote) and bool(gave), 'L9-result-payload',
+                  'FitResult data name',
+                  'the writer records self.data.name, the reader sets it on the data',
+                  loc2, fail_detail='%s: a saved and reloaded result returns its '
+                  'fitted image -- and the best-fit hologram made from it -- under the '
+                  'name of the file variable, \'data\', where the same image saved on '
+                  'its own keeps its name' % (
+                      'the writer does not record the name of the fitted image'
+                      if not wrote else 'the reader does not restore the name'))
     check.require('data' in unpacked, 'L9-result-payload', 'FitResult._unserialize data',
                   'the metadata of the fitted data is unpacked after reading', loc2)
     check.require(not crossed and restored <= unpacked, 'L9-result-payload',
